@@ -25,7 +25,7 @@ def cross(cases, outs, cfgs):
 
 
 def run(ctx):
-    sqlprop.run_sql_property(ctx, corpus=["cjoins", "subq", "cte", "setop"], seeded=[], cfgs=CFGS, quick_n=150, thorough_n=1200, cross=cross,
+    sqlprop.run_sql_property(ctx, corpus=["cjoins", "subq", "cte", "setop", "limit0"], seeded=[], cfgs=CFGS, quick_n=150, thorough_n=1200, cross=cross,
         rule="Statements that take the gather path (joins, self-joins, correlated and uncorrelated subqueries, CTEs, set operations; filters the "
              "optimizer pushes into scans; projections that prune all but the filter column) are forced through execute_any_distributed for 2-4 "
              "participants; re-running the statement over the gathered tables must bind (no column/table resolution error where the single node "
